@@ -75,6 +75,9 @@ def run(run, args):
     run.oblige("correspondence: Mz.v = mz.rs bit for bit on the direct conversion calls", not mres[0], "%d differ" % len(mres[0]))
     run.oblige("neutral_mass inverts mass_charge_ratio, and both are the stated formulas, on every direct call", not mres[1], "%d fail" % len(mres[1]))
     broken = standard_proof_obligations(run, "C10", THEOREMS) if THEOREMS else []
+    # floating-point level: neutral_mass o mass_charge_ratio in rounded arithmetic, and its binary64 instance
+    broken += standard_proof_obligations(run, "C10f", ["C10_inverse_rounded", "C10_binary64_std_ext", "C10_inverse_binary64", "C10_float_nonvacuous"],
+                                         allowed_axioms=STD_FLOAT_AXIOMS)
     if mres[1]:
         r = {x["id"]: x for x in mrecs}[mres[1][0]]
         violation(run, {"failing_input": dict(r, function="mass_charge_ratio / neutral_mass"),
